@@ -27,7 +27,7 @@ CASE_TIMEOUT = {'quick': 120, 'thorough': 300}
 
 
 def plan(tier, seed):
-    n = 96 if tier == 'quick' else 3000
+    n = 192 if tier == 'quick' else 3000
     return [{'idx': i, 'kind': 'net', 'flavour': P.flavour(i)} for i in range(n)]
 
 
